@@ -27,6 +27,7 @@ func init() {
 
 func runC17(c *report.Ctx) {
 	p := c.P
+	ruleWriterLock(c) // the shared batch is protected by the writer mutex alone
 	ruleCommonLock(c, nil, "every write to a shared field and every access that may run concurrently with it hold a common lock, the writer in exclusive mode", 10)
 
 	// the handler token used above is only sound while the hand-shake has its rendezvous shape
